@@ -326,7 +326,7 @@ func compareSched(base, got []Output, w *wm.World, site, what string, x *fw.Rec)
 		a, b := base[i].Text, got[i].Text
 		ea, eb := strings.HasPrefix(a, "ERROR: "), strings.HasPrefix(b, "ERROR: ")
 		switch {
-		case (ea && strings.Contains(a, namedPortErr) || eb && strings.Contains(b, namedPortErr)) && w.NormalizeNS().NamedPortOnIPPossible():
+		case (ea && wm.IsNamedPortOnIPErrText(a) || eb && wm.IsNamedPortOnIPErrText(b)) && w.NormalizeNS().NamedPortOnIPPossible():
 			known = kfNamedPort
 		case !ea && !eb && sameUpToSelectorSpelling(a, b):
 			known = kfSpelling
